@@ -115,6 +115,7 @@ def gen_graph(r, mode):
         nd.succ = []       # (how, target) how in name|secsym|member (relocations that need the symbol's address) or
         #                    none|none-secsym|tlsld (relocations that need NOTHING from the symbol at link time: R_X86_64_NONE keep-alive, x@tlsld)
         nd.sets = []       # referenced start/stop sets
+        nd.setref = {}     # set -> both|start|stop (which boundary symbols the reference uses)
         nd.lsda = None
         nodes.append(nd)
     # edges
@@ -144,6 +145,8 @@ def gen_graph(r, mode):
             j = r.below(nsets)
             if any(x.kind == "m" and x.set == j for x in nodes) and j not in nd.sets:
                 nd.sets.append(j)
+                # which of the two boundary symbols is referenced: each one alone keeps the whole set alive
+                nd.setref[j] = r.choice(["both", "both", "start", "stop"])
     # FDEs with LSDA (function -> data node of the same file), one personality per file
     pers = {}
     for nd in nodes:
@@ -225,6 +228,11 @@ def member_size(nd):
     return 16 * (1 + len(nd.succ))
 
 
+def set_size(g, j):
+    """total size of the output section mysetJ when every member is kept (member sections have alignment 1: no padding)"""
+    return sum(member_size(x) for x in g["nodes"] if x.kind == "m" and x.set == j)
+
+
 def render_file(g, f):
     nodes = g["nodes"]
     mine = [x for x in nodes if x.file == f]
@@ -304,7 +312,13 @@ def render_file(g, f):
                         out.append(f"    lea n_{t}(%rip), %rdi\n")
                     out.append(f"    lea {member_size(tn)}(%rdi), %rsi\n    call walk_set@PLT\n")
             for j in nd.sets:
-                out.append(f"    mov __start_myset{j}@GOTPCREL(%rip), %rdi\n    mov __stop_myset{j}@GOTPCREL(%rip), %rsi\n    call walk_set@PLT\n")
+                which = nd.setref.get(j, "both")
+                if which == "both":
+                    out.append(f"    mov __start_myset{j}@GOTPCREL(%rip), %rdi\n    mov __stop_myset{j}@GOTPCREL(%rip), %rsi\n    call walk_set@PLT\n")
+                elif which == "start":
+                    out.append(f"    mov __start_myset{j}@GOTPCREL(%rip), %rdi\n    lea {set_size(g, j)}(%rdi), %rsi\n    call walk_set@PLT\n")
+                else:
+                    out.append(f"    mov __stop_myset{j}@GOTPCREL(%rip), %rsi\n    lea -{set_size(g, j)}(%rsi), %rdi\n    call walk_set@PLT\n")
             out.append("9:  add $8, %rsp\n    ret\n")
             if nd.lsda is not None:
                 out.append("    .cfi_endproc\n")
@@ -326,7 +340,13 @@ def render_file(g, f):
                 else:
                     ents.append(f"    .quad 2, n_{t}\n    .quad 3, n_{t}+{member_size(tn)}\n")
             for j in nd.sets:
-                ents.append(f"    .quad 2, __start_myset{j}\n    .quad 3, __stop_myset{j}\n")
+                which = nd.setref.get(j, "both")
+                if which == "both":
+                    ents.append(f"    .quad 2, __start_myset{j}\n    .quad 3, __stop_myset{j}\n")
+                elif which == "start":
+                    ents.append(f"    .quad 2, __start_myset{j}\n    .quad 3, __start_myset{j}+{set_size(g, j)}\n")
+                else:
+                    ents.append(f"    .quad 2, __stop_myset{j}-{set_size(g, j)}\n    .quad 3, __stop_myset{j}\n")
             cnt = sum(e.count(".quad") for e in ents)
             out.append(f"n_{nd.id}:\n    .quad {nd.id}\n    .quad {cnt}\n" + "".join(ents))
         elif nd.kind == "t":
